@@ -63,6 +63,7 @@ func c14Run(sc *C14Scenario) *c14Outcome {
 	mc.illFormed = sc.Prog.IllFormed
 	mc.literal = sc.Prog.Literal
 	mc.richConsts = sc.Prog.Rich
+	mc.explicitMD = sc.Prog.ExplicitMD
 	var history []string
 	var obsBad, obsPanic string
 	builder := func() {
@@ -92,7 +93,8 @@ func c14Run(sc *C14Scenario) *c14Outcome {
 	}
 	curScenario = sc
 	simrt.Load(sc.Tape.config())
-	simrt.SeamsOn(false, false)
+	simrt.SeamsOn(len(sc.Tape.Perms) > 0, false)
+	defer simrt.SeamsOn(false, false)
 	simrt.SetCoarse(true)
 	res := simrt.RunTasks([]func(){builder, observer}, 60*time.Second)
 	simrt.SetCoarse(false)
@@ -198,7 +200,13 @@ func c14GenScenario(r *rng) *C14Scenario {
 	// Gaps are counted in yields (= steps); keep them small so that the observer
 	// lands inside the program, not after it.
 	mean := 1 + r.intn(1+steps/(nobs+1))
-	sc.Tape = genTape(r, TapeParams{NSched: 256, MeanGap: mean, EdgePct: 0, EarlyPct: 0})
+	// (a tenth of the histories also run with seeded map-iteration orders: what the
+	// printer ranges over must come out in the same order every time)
+	np := 0
+	if r.chance(1, 10) {
+		np = 96
+	}
+	sc.Tape = genTape(r, TapeParams{NSched: 256, MeanGap: mean, EdgePct: 0, EarlyPct: 0, NPerm: np})
 	sc.Tape.StepCap = 1 << 30
 	return sc
 }
